@@ -1,6 +1,7 @@
 package props
 
 import (
+	"unicode/utf8"
 	"bytes"
 
 	"fmt"
@@ -31,8 +32,9 @@ func compileBundle(names, srcs []string, globals map[string]ref.Value) (c *compi
 			b.AddTemplateString(names[i], srcs[i])
 		}
 		if len(globals) > 0 {
-			if len(srcs[0])%2 == 0 {
-				// through the globals file syntax (NAME = literal) and its parser
+			if len(srcs[0])%2 == 0 && utf8.ValidString(fmt.Sprint(globals)) {
+				// through the globals file syntax (NAME = literal) and its parser (a file is text: values
+				// that are not valid UTF-8 can only be given through the map)
 				var gf strings.Builder
 				gf.WriteString("// generated globals\n\n")
 				for _, k := range ref.SortedKeys(globals) {
